@@ -45,6 +45,15 @@ FlatE = SpecFun('FlatE', [GRAMMAR.sort(), OGS, PSEQ, T.IntS], SEQ, _flat_def,
                 doc='guesses of the first k popped pre-terminals, in order')
 
 
+def _flat_ext(G, OG, p, q, k):
+    return [0 <= k, k <= z3.Length(p)], FlatE(G, OG, z3.Concat(p, q), k) == FlatE(G, OG, p, k)
+
+
+from pyvc.lemma import Schema     # noqa: E402
+flat_ext = Schema('C09.flat_ext', [('G', GRAMMAR.sort()), ('OG', OGS), ('p', PSEQ), ('q', PSEQ), ('k', T.IntS)],
+                  _flat_ext, induction='k', doc='logging one more popped item does not change the guesses of the earlier ones')
+
+
 # ---- StatusReport: bookkeeping that no property reads (trusted, frame only) --------------------
 def session_keys_only(opts0, opts1):
     k = z3.Const('k!sk', B.CONFIG_KEY.sort())
@@ -73,7 +82,6 @@ def _ss_post_true(c):
     q = s0.fields['pqueue']
     pq_mode = T.str_lit('priority_queue')
     return [
-        ('written', c.after['$disk'].term == opts1),
         ('position_saved', z3.Implies(s0.fields['mode'].term == pq_mode, z3.And(
             B.CONFIG_OPTS.has(opts1, KMAX),
             B.CONFIG_OPTS.get(opts1, KMAX) == B.s_offloat(q.fields['max_probability'].term),
@@ -89,9 +97,11 @@ _ss = Contract(
     params={'self': SESSION_OBJ, '$disk': DISK},
     cases=[
         Case('saved', lambda c: zbool(True),
-             lambda c: None if not _is_const(c.result, True) else _ss_post_true(c)),
+             lambda c: None if not _is_const(c.result, True) else _ss_post_true(c) + [
+                 ('written', c.after['$disk'].term == c.after['self'].fields['save_config'].fields['opts'].term)]),
         Case('io_error', lambda c: zbool(False),
-             lambda c: None if not _is_const(c.result, False) else [('disk_kept', c.after['$disk'].term == c.args['$disk'].term)]),
+             lambda c: None if not _is_const(c.result, False) else _ss_post_true(c) + [
+                 ('disk_kept', c.after['$disk'].term == c.args['$disk'].term)]),
     ],
     self_modifies=('save_config',),
     note='C08.save: the file holds repr(max_probability) of the queue; C15: omen cursor written only after a stop inside OMEN',
@@ -162,4 +172,195 @@ _kp = Contract(
     note="C12.keypress.frame/guarantee: the thread's only write outside stderr is pcfg.should_exit = True, and only after reading 'q'; "
          'every way it can end (return, EOFError/ValueError/OSError from input(), an error while printing) leaves everything else untouched '
          'and no exception escapes',
+)
+
+
+# ---- PcfgQueue.next at call sites of the session loop ------------------------------------------
+from contracts import guesser_lemmas as gl     # noqa: E402
+
+
+def _next_hook(eng, st, c2, e, exprs):
+    """(1) log the popped item in $popped; (2) add the proved lemma C01.queue_step for this call."""
+    if isinstance(c2.result, PNone):
+        return
+    rt = box(c2.result, PTITEM)
+    s0, s1 = c2.args['self'], c2.after['self']
+    G = g_of(s0.fields['pcfg'])
+    if '$popped' in st.env:
+        old = st.env['$popped'].term
+        st.env['$popped'] = ZV(POPPED, z3.Concat(old, z3.Unit(rt)))
+        st.assume(flat_ext.inst(G, s0.fields['pcfg'].fields['omen_grammar'].term, old, z3.Unit(rt), z3.Length(old)))
+    st.assume(gl.queue_step.inst(G, s0.fields['p_queue'].term, s0.fields['max_probability'].term, rt,
+                                 s1.fields['p_queue'].term, s1.fields['max_probability'].term))
+
+
+_nx = Contract.registry[PQ + ':PcfgQueue.next']
+_nx.call_hook = _next_hook
+_nx.assumed_ensures = lambda c: [] if isinstance(c.result, PNone) else [
+    ('A_WFX_expandable', z3.And(wf_expand(g_of(c.self.fields['pcfg']), T.S_EMPTY, PTITEM.get(box(c.result, PTITEM), 'pt')),
+                                PT.len(PTITEM.get(box(c.result, PTITEM), 'pt')) >= 1))]
+
+
+# ---- restore_omen (C15), trusted here ---------------------------------------------------------------
+class _Any(T.Shape):
+    def key(self):
+        return 'any'
+
+
+ANY = _Any()
+OmenRestored = z3.Function('OmenRestored', OGS, T.Str, SEQ)
+
+Contract(
+    MOD + ':PcfgGrammar.restore_omen',
+    params={'self': GRAMMAR_OBJ, 'omen_guess_num': TInt, 'pt_item': ANY, '$out': OUT, '$quit': TBool, '$exit_seen': TBool},
+    result=TInt,
+    ensures=lambda c: [('some_output', z3.And(c.result.term >= 0, z3.Length(c.after['$out'].term) ==
+                                              z3.Length(c.args['$out'].term) + c.result.term)),
+                       ('exit_only_on_quit', z3.Implies(c.after['$exit_seen'].term,
+                                                        z3.Or(c.args['$exit_seen'].term, c.args['$quit'].term)))],
+    self_modifies=('omen_guess_num', 'omen_exit'),
+    trusted=True,
+    note='C15: continues the interrupted Markov level from the pickled cursor (assumed here)',
+)
+
+
+# ---- CrackingSession.run -------------------------------------------------------------------------------
+def _run_requires(c):
+    s = c.self
+    G = g_of(s.fields['pcfg'])
+    opts = s.fields['save_config'].fields['opts'].term
+    return [('wf_base', wf_base(G, s.fields['pcfg'].fields['base'].term)),
+            ('wf_grammar', z3.And(gl.wf_grammar(G))),
+            ('limit_ok', limit_ok(c.limit.term)),
+            ('not_debug', z3.Not(s.fields['pcfg'].fields['debug'].term)),
+            ('saved_position_present', z3.Implies(c.load_session.term, z3.And(
+                B.CONFIG_OPTS.has(opts, KMIN), B.CONFIG_OPTS.has(opts, KMAX)))),
+            ('empty_log', z3.Length(c.args['$popped'].term) == 0),
+            ('queue_mode', s.fields['mode'].term == T.str_lit('priority_queue')),
+            ('no_exit_yet', z3.Not(c.args['$exit_seen'].term))]
+
+
+def _written_since(c):
+    return z3.Length(c.after['$out'].term) - z3.Length(c.args['$out'].term)
+
+
+def partial_at(G, OG, popped, out_start, out, m):
+    """out = out_start ++ (guesses of the first m popped items) ++ a proper prefix of the guesses of
+    the Markov item popped[m]  (an explicit quit between two Markov guesses)"""
+    done = FlatE(G, OG, popped, m)
+    E = ExpandL(G, OG, T.S_EMPTY, PTITEM.get(popped[m], 'pt'))
+    r = z3.Length(out) - z3.Length(out_start) - z3.Length(done)
+    return z3.And(0 <= m, m < z3.Length(popped), 1 <= r, r < z3.Length(E),
+                  out == z3.Concat(out_start, done, take(r, E)),
+                  category(PTITEM.get(popped[m], 'pt')) == ord('M'))
+
+
+def _run_ensures(c):
+    G = g_of(c.self.fields['pcfg'])
+    OG = c.self.fields['pcfg'].fields['omen_grammar'].term
+    popped = c.after['$popped'].term
+    n = z3.Length(popped)
+    out0, out1 = c.args['$out'].term, c.after['$out'].term
+    L = lim_val(c.limit.term)
+    act = lim_active(c.limit.term)
+    fresh_run = z3.Not(c.load_session.term)
+    quit_ = c.args['$quit'].term
+    all_emitted = out1 == z3.Concat(out0, FlatE(G, OG, popped, n))
+    all_but_last = z3.And(n >= 1, out1 == z3.Concat(out0, FlatE(G, OG, popped, n - 1)))
+    last = popped[n - 1]
+    cut = z3.And(n >= 1, out1 == z3.Concat(out0, FlatE(G, OG, popped, n - 1),
+                                           take(L - z3.Length(FlatE(G, OG, popped, n - 1)),
+                                                ExpandL(G, OG, T.S_EMPTY, PTITEM.get(last, 'pt')))))
+    in_markov = z3.Or(partial_at(G, OG, popped, out0, out1, n - 1), partial_at(G, OG, popped, out0, out1, n - 2))
+    disk = c.after['$disk'].term
+    opts1 = c.after['self'].fields['save_config'].fields['opts'].term
+    saved_last = z3.And(B.CONFIG_OPTS.has(opts1, KMAX),        # what the session holds and tried to write ...
+                        B.CONFIG_OPTS.get(opts1, KMAX) == B.s_offloat(PTITEM.get(last, 'prob')))
+    # (that these options are what the file holds when the write succeeds is _save_session's own postcondition 'written')
+    return [
+        # C09.limit.run.post (new session; a resumed session first continues a Markov level, C15)
+        ('limit_never_exceeded', z3.Implies(z3.And(act, fresh_run), _written_since(c) <= L)),
+        ('stream_shape', z3.Implies(fresh_run, z3.Or(all_emitted, all_but_last, z3.And(act, cut, _written_since(c) == L),
+                                                     z3.And(quit_, in_markov)))),
+        ('short_only_if_exhausted_or_quit', z3.Implies(z3.And(act, fresh_run, _written_since(c) < L, z3.Not(quit_)), all_emitted)),
+        ('complete_unless_limit_or_quit', z3.Implies(z3.And(z3.Not(act), fresh_run, z3.Not(quit_)), all_emitted)),
+        # C12/C08: an explicit quit stops after a pop, before its guesses, and the saved position is that item's probability
+        ('quit_saves_unguessed_position', z3.Implies(
+            z3.And(fresh_run, all_but_last, z3.Not(all_emitted), z3.Not(z3.And(act, cut, _written_since(c) == L))),
+            z3.And(quit_, saved_last))),
+    ]
+
+
+def _run_inv(L):
+    s = L.self
+    e = L.entry
+    G = g_of(s.fields['pcfg'])
+    OG = s.fields['pcfg'].fields['omen_grammar'].term
+    q = s.fields['pqueue']
+    H = q.fields['p_queue'].term
+    popped = L.env['$popped'].term
+    n = z3.Length(popped)
+    out_start = L.pre['$out'].term
+    lim0 = e.args['limit'].term
+    sh = TOpt(TInt)
+    done = FlatE(G, OG, popped, n)
+    seen = L.env['$exit_seen'].term
+    return [
+        ('queue_rep', z3.And(in_bag_all_wf(G, H), gl.counts_nonneg(H), gl.queue_bound(H, q.fields['max_probability'].term))),
+        ('stream', z3.If(seen,
+                         z3.And(e.args['$quit'].term, z3.Or(L.env['$out'].term == z3.Concat(out_start, done),
+                                                            partial_at(G, OG, popped, out_start, L.env['$out'].term, n - 1))),
+                         L.env['$out'].term == z3.Concat(out_start, done))),
+        ('limit_tracks', z3.Implies(z3.Not(seen), z3.If(
+            lim_active(lim0),
+            z3.And(z3.Not(sh.is_none(L.limit.term)), sh.val(L.limit.term) == lim_val(lim0) - z3.Length(done),
+                   sh.val(L.limit.term) >= 1),
+            L.limit.term == lim0))),
+        ('limit_bound', z3.Implies(lim_active(lim0), z3.Length(L.env['$out'].term) - z3.Length(out_start) < lim_val(lim0))),
+        ('grammar_kept', z3.And(G == g_of(e.args['self'].fields['pcfg']),
+                                OG == e.args['self'].fields['pcfg'].fields['omen_grammar'].term,
+                                z3.Not(s.fields['pcfg'].fields['debug'].term))),
+        ('mode_kept', s.fields['mode'].term == e.args['self'].fields['mode'].term),
+        ('disk_kept', L.env['$disk'].term == L.pre['$disk'].term),
+    ]
+
+
+_run = Contract(
+    CS + ':CrackingSession.run',
+    params={'self': SESSION_OBJ, 'load_session': TBool, 'limit': TOpt(TInt),
+            '$out': OUT, '$quit': TBool, '$exit_seen': TBool, '$popped': POPPED, '$disk': DISK, '$saved': PTITEMS},
+    requires=_run_requires,
+    ensures=_run_ensures,
+    self_modifies=('pqueue', 'report', 'pcfg', 'save_config'),
+    locals={'limit': TOpt(TInt)},
+    loops={0: LoopSpec(fingerprint='while True', inv=_run_inv, extra_writes=['$exit_seen', '$popped'])},
+    note='C09.limit.run.post, C08.save.point, C12.run.quit_only_on_request / boundary',
+)
+_run.volatile = {'should_exit': read_should_exit}
+_run.defaults = {'load_session': lambda: zbool(False), 'limit': lambda: PNone()}
+
+
+# ---- pcfg_guesser.parse_command_line (C09.limit.validated) -------------------------------------------
+PROGRAM_INFO = TRec({'name': TStr, 'version': TStr, 'author': TStr, 'contact': TStr, 'rule_name': TStr, 'session_name': TStr,
+                     'load_session': TBool, 'limit': TOpt(TInt), 'cracking_mode': TStr, 'supported_modes': TList(TStr),
+                     'skip_brute': TBool, 'skip_case': TBool, 'debug': TBool})
+ARGS = ObjShape('argparse:Namespace', {'rule': TStr, 'session': TStr, 'load': TBool, 'limit': TOpt(TInt), 'skip_brute': TBool,
+                                       'skip_case': TBool, 'mode': TStr, 'debug': TBool})
+
+
+def _pcl_ensures(c):
+    lim = box(c.after['program_info'].fields['limit'], TOpt(TInt))
+    sh = TOpt(TInt)
+    return [('accepted_limit_is_positive_or_absent', z3.Implies(c.result.term, z3.Or(sh.is_none(lim), sh.val(lim) >= 0))),
+            ('rejects_negative', z3.Implies(z3.And(z3.Not(sh.is_none(lim)), sh.val(lim) < 0), z3.Not(c.result.term)))]
+
+
+Contract(
+    'pcfg_guesser:parse_command_line',
+    params={'program_info': PROGRAM_INFO},
+    mutates=('program_info',),
+    result=TBool,
+    ensures=_pcl_ensures,
+    locals={'args': ARGS},
+    note='C09.limit.validated: a negative --limit is refused (0 is accepted and means "no limit"; the property quantifies over N >= 1)',
 )
